@@ -47,7 +47,7 @@ TIERS = {
                "io_2rd2tns", "io_pipe2tns", "io_rdwr2tns", "io_accept2tns", "io_2rd2t"],
         "run": ["io_rw1", "io_rw2t", "io_2rd1", "io_2rd2t", "io_rdwr1", "io_rdwr2t", "io_close1", "io_close2t", "io_closerace2t",
                 "io_closewr1", "io_closewr2t", "io_pipe1", "io_pipe2t", "io_accept1", "io_accept2t"],
-        "seeds": 200, "mc_timeout": 1200, "mc_par": 3, "mc_workers": 2, "mc_bounded": {},
+        "seeds": 120, "mc_timeout": 1200, "mc_par": 3, "mc_workers": 2, "mc_bounded": {},
     },
 }
 MAY_TIMEOUT = {"io_2rd2t", "io_2rd2tns", "io_pipe2tns", "io_accept2tns", "io_rdwr2tns", "io_rw2t", "io_close2t", "io_closerace2t"}  # thorough: state count is what was explored within the limit
@@ -216,9 +216,13 @@ def part_b(tier, seed, ev, rep, repo, build, outdir, par):
         traces = collected[name][2]
         if not traces:
             return name, (set(), "", {})
-        return name, tracecheck.validate(name, traces, workers=max(1, min(par, len(traces) // 40 + 1)), timeout=3000)
+        return name, tracecheck.validate(name, traces, workers=vworkers, timeout=3000)
 
-    with cf.ThreadPoolExecutor(max_workers=par) as ex:
+    # at most `par` TLC processes at a time: few traces per scenario -> one process each, scenarios in parallel;
+    # many traces per scenario -> `par` processes for one scenario after the other
+    many = cfgt["seeds"] > 40
+    vworkers = par if many else 1
+    with cf.ThreadPoolExecutor(max_workers=1 if many else par) as ex:
         validated = dict(ex.map(val, cfgt["run"]))
     for name in cfgt["run"]:
         scen, res, traces, meta, nbad = collected[name]
